@@ -222,7 +222,7 @@ inline std::string diffLogs(const std::vector<probe::LogEntry>& got, const std::
 // Structure (C07), applied to one tree
 // ---------------------------------------------------------------------------------------------
 template <int Dim, class Tree>
-std::string checkStructure(const Tree& tree, const rm::ModelTree& mt, long blockSize, bool oneGroupPerParent, long* nbGroupsOut = nullptr){
+std::string checkStructure(const Tree& tree, const rm::ModelTree& mt, long blockSize, bool oneGroupPerParent, long* nbGroupsOut = nullptr, bool crossLevelCoords = true){
     const int H = mt.H;
     const auto& sp = tree.getSpacialSystem();
     std::ostringstream os;
@@ -248,7 +248,7 @@ std::string checkStructure(const Tree& tree, const rm::ModelTree& mt, long block
                 Coord c{{0,0,0,0}}; for(int d = 0 ; d < Dim ; ++d) c[size_t(d)] = grp.getCellBoxCoord(i)[size_t(d)];
                 for(int d = 0 ; d < Dim ; ++d) if(bc[size_t(d)] != c[size_t(d)]){ os << "cell header coordinate differs from its decoded index at level " << l; return os.str(); }
                 if(sp.getIndexFromBoxPos(bc) != idx){ os << "index/coordinate round trip fails for cell index " << idx; return os.str(); }
-                if(!mt.has(l, c)){ os << "cell L" << l << coordStr(c, Dim) << " (index " << idx << ") is not an ancestor of an occupied leaf"; return os.str(); }
+                if((crossLevelCoords || l == H - 1) && !mt.has(l, c)){ os << "cell L" << l << coordStr(c, Dim) << " (index " << idx << ") is not an ancestor of an occupied leaf"; return os.str(); }
             }
         }
         if(long(idxPerLevel[size_t(l)].size()) != long(mt.cells[size_t(l)].size())){
@@ -312,7 +312,9 @@ std::string checkConstruction(Tree& tree, const rm::ModelTree& mt, const std::ve
                 const double got = double(data[v][i]);
                 if(std::memcmp(&got, &rows[size_t(id)][v], sizeof(double)) != 0){ err = "data value " + std::to_string(v) + " of particle " + std::to_string(id) + " not bit-identical"; return; }
             }
-            if(expectZero) for(size_t k = 0 ; k < rhs.size() ; ++k) if(rhs[k] && rhs[k][i] != 0){ err = "result value not zero after construction"; return; }
+            if constexpr(std::tuple_size<typename std::decay<decltype(rhs)>::type>::value != 0){
+                if(expectZero) for(size_t k = 0 ; k < rhs.size() ; ++k) if(rhs[k] && rhs[k][i] != 0){ err = "result value not zero after construction"; return; }
+            }
         }
     });
     if(err.empty()) for(size_t i = 0 ; i < seen.size() ; ++i) if(!seen[i]){ err = "particle " + std::to_string(i) + " missing from the tree"; break; }
